@@ -98,6 +98,13 @@ def evalAst : OptAst → Opts
   | .std => std
   | .call r u fe i => ctor r u i (evalFeatExpr fe)
 
+/-- The options a generated `FunctionScope` hands to callees (`self.callopts`): `call_options()` of the scope's
+options, as long as the extracted shape fact says so (otherwise left as the raw options, which the theorem rejects). -/
+def scopeCallopts (o : Opts) : Opts := if scopeCalloptsFromCallOptions then callOptions o else o
+
+/-- The conversion-cache sub-key of a request (`PyToPy.get_caching_key`). -/
+def cacheKey (o : Opts) : Opts := if cachingKeyIsOptions then o else callOptions o
+
 /-! Driver glue -/
 open Malt in
 def tupleSexp (o : Opts) : Sexp :=
